@@ -426,13 +426,13 @@ where
                 if v.max_dyn(from, to) != exp.iter().copied().max() { return fail("C08.agg", "max_dyn", from, to, &v.max_dyn(from, to), &exp.iter().max()); }
                 // read-only clones see the stored part and the shared length only: compare on the stored prefix when clean
                 let clean = self.cur == self.written && self.pushed_empty() && !(V::RAW && v.r_has_overlay());
-                if clean {
+                if clean || (expanded && self.pushed_empty() && !self.dirty_since_commit) {
                     let clause = if expanded { "C08.clone-expanded" } else { "C08.clone" };
                     let r1 = ro.collect_range_at(from, to);
                     if r1 != exp { if expanded { soft.push((clause.into(), format!("read_only_clone.collect_range_at({from},{to}) = {r1:?}, reference contents give {exp:?}"))); } else { return fail(clause, "read_only_clone.collect_range_at", from, to, &r1, &exp); } }
                     let r2 = boxed.collect_range_dyn(from, to);
                     if r2 != exp { if expanded { soft.push((clause.into(), format!("read_only_boxed_clone.collect_range_dyn({from},{to}) = {r2:?}"))); } else { return fail(clause, "read_only_boxed_clone.collect_range_dyn", from, to, &r2, &exp); } }
-                    if V::RAW && !has_holes {
+                    if V::RAW && !has_holes && clean {
                         let m1 = v.r_stored_scan(from, to, false);
                         if m1 != exp { return fail("C08.stored-scan", "fold_stored_mmap", from, to, &m1, &exp); }
                         let m2 = v.r_stored_scan(from, to, true);
@@ -671,7 +671,9 @@ pub fn replay(format: &str, history: &[String]) -> Result<(), Failure> {
         "eager_bytes" => run_history::<EagerVec<BytesVec<usize, u32>>>(&ops, &mut rep, true, true),
         _ => run_history::<ZstdVec<usize, u32>>(&ops, &mut rep, true, true),
     };
-    r.map(|_| ())
+    r?;
+    if let Some(f) = rep.failures.into_iter().next() { return Err(f); }
+    Ok(())
 }
 
 #[allow(dead_code)]
